@@ -132,7 +132,9 @@ def extract_one(kind, path, ty):
     # --- fail_all_pending --------------------------------------------------------------------------
     fa = fn_body(src, "fail_all_pending")
     marks = []
-    for name, rx in [("shutdownWriter", r"\.\s*shutdown\s*\(|close_writer\s*\("), ("takeNotify", r"take_notify_sender\s*\("),
+    # writer shutdown = anything after which `write_request` fails: socket shutdown, WebSocket close,
+    # or raising the `failed` flag that `write_request` races against
+    for name, rx in [("shutdownWriter", r"\.\s*shutdown\s*\(|close_writer\s*\(|failed\s*\.\s*send_replace\s*\(\s*true"), ("takeNotify", r"take_notify_sender\s*\("),
                      ("drainPending", r"\.\s*drain\s*\(\s*\)"), ("sendErrors", r"\.\s*send\s*\(\s*Err\s*\(")]:
         for m in re.finditer(rx, fa):
             marks.append((m.start(), name))
